@@ -164,6 +164,8 @@ class Engine:
         self.float_strict = False
         self.concrete = False
         self.const_overrides = {}
+        self.auto_inline = True
+        self._inline_depth = 0
         self.ext_base_methods = {}
         self.modattrs = {}
         self.spec_mode = False
@@ -1112,6 +1114,11 @@ class Engine:
             return r
         if isinstance(op, ast.Add) and isinstance(a, tuple) and isinstance(b, tuple):
             return a + b
+        if isinstance(op, ast.Add) and isinstance(a, Seq) and a.kind == "list" and isinstance(b, Opq) and node is not None \
+                and isinstance(node, ast.AugAssign):
+            # list += <opaque object>: extends the list by whatever iterating that object yields -- an unknown
+            # number of unknown elements (sound over-approximation)
+            return Seq("list", I(a.n) + z3.Int(fresh_name("extended_by")), lambda i: Opq(), a.aid)
         if isinstance(op, ast.Mult) and sa and is_int(b):
             if isinstance(a, (bytes, str)) and isinstance(b, int):
                 return a * b
@@ -1150,11 +1157,17 @@ class Engine:
             a, b = b, a
         if isinstance(b, int) and b == 0:
             return 0 if isinstance(op, ast.BitAnd) else a
-        if isinstance(b, int) and b > 0 and (b & (b - 1)) == 0:
-            bit = (I(a) / b) % 2 == 1
-            if isinstance(op, ast.BitAnd):
-                return z3.If(bit, z3.IntVal(b), z3.IntVal(0))
-            return I(a) + z3.If(bit, z3.IntVal(0), z3.IntVal(b))
+        if isinstance(b, int) and b > 0:
+            # constant mask: handle it bit by bit
+            r_and, r_or = z3.IntVal(0), I(a)
+            k = 1
+            while k <= b:
+                if b & k:
+                    bit = (I(a) / k) % 2 == 1
+                    r_and = r_and + z3.If(bit, z3.IntVal(k), z3.IntVal(0))
+                    r_or = r_or + z3.If(bit, z3.IntVal(0), z3.IntVal(k))
+                k <<= 1
+            return r_and if isinstance(op, ast.BitAnd) else r_or
         raise Unsupported("symbolic bit operation %r %r" % (a, b))
 
     def num_eq0(self, b):
@@ -1329,6 +1342,15 @@ class Engine:
 
     def getslice(self, obj, lo, hi, step, node=None):
         obj, lo, hi, step = self.force(obj), self.force(lo), self.force(hi), self.force(step)
+        if type(obj).__name__ == "NpArr" and obj.ndim == 1 and hi is None and (step is None or is_int(step)):
+            from . import npmodel
+            n = I(obj.shape[0])
+            st = I(step) if step is not None else z3.IntVal(1)
+            if not self.decide(st > 0):
+                raise Unsupported("array slice with a non-positive step")
+            s0 = I(norm_index(lo, n, 0))
+            cnt = py_floordiv(n - s0 + st - 1, st)
+            return npmodel.NpArr((z3.If(cnt > 0, cnt, 0),), lambda i: obj.at(s0 + I(i) * st), "slice")
         if isinstance(obj, Ref):
             return self.getitem(obj, SliceVal(lo, hi, step), node)
         if step is not None:
@@ -1551,7 +1573,29 @@ class Engine:
                     self.yield_hook = old_hook
                 return seq_lit("list", out, new_aid())
             return self.run_function(fi, args, kwargs, self_val)
+        # auto-inline: a helper of the repository that the unit did not anticipate (e.g. after a refactoring) is
+        # interpreted in place when that is possible without further specification: no generator, and every loop it
+        # contains is either over a literal tuple or has a loop spec.  Interpreting the real body is always sound;
+        # the function is listed in evidence as inlined.
+        if self.auto_inline and not fi.is_generator and self._inline_depth < 6 and self._loops_ok(fi):
+            self.used_inline.add(q + " (auto)")
+            self._inline_depth += 1
+            try:
+                return self.run_function(fi, args, kwargs, self_val)
+            finally:
+                self._inline_depth -= 1
         raise Unsupported("call to %s: no contract and not declared inline" % q)
+
+    def _loops_ok(self, fi):
+        loops = [n for n in ast.walk(fi.node) if isinstance(n, (ast.While, ast.For))]
+        loops.sort(key=lambda n: (n.lineno, n.col_offset))
+        specs = getattr(self, "loop_specs", {})
+        for k, n in enumerate(loops):
+            if isinstance(n, ast.For) and isinstance(n.iter, (ast.Tuple, ast.List)):
+                continue
+            if (fi.qualname, k) not in specs:
+                return False
+        return True
 
     def call_closure(self, c, args, kwargs):
         if isinstance(c.node, ast.Lambda):
@@ -1959,6 +2003,15 @@ class Engine:
                 raise Unsupported("dict.get of unmodelled key %r" % key)
             if name == "copy":
                 return obj.copy()
+            if name == "update":
+                for a_ in args:
+                    a_ = self.force(a_)
+                    if not isinstance(a_, DictVal):
+                        raise Unsupported("dict.update with %r" % (a_,))
+                    obj.entries.update(a_.entries)
+                for k_, v_ in kwargs.items():
+                    obj.entries[k_] = (True, v_)
+                return None
             if name == "items":
                 raise Unsupported("dict.items")
         h = self.lib.get("method:" + kind_of(obj).split(":")[0] + "." + name)
